@@ -197,6 +197,8 @@ pub struct Shared {
     pub cancel_next: BTreeMap<u8, (u64, Option<u32>)>,
     /// per node: number of wall-clock jumps applied so far
     pub clock_jump_count: BTreeMap<u8, u32>,
+    /// per node: the data centre views name it with from now on (instead of the configured one)
+    pub dc_override: BTreeMap<u8, String>,
 }
 
 pub type SharedRef = Rc<RefCell<Shared>>;
@@ -277,6 +279,7 @@ impl<'a> Cluster<'a> {
             ghosts: BTreeMap::new(),
             cancel_next: BTreeMap::new(),
             clock_jump_count: BTreeMap::new(),
+            dc_override: BTreeMap::new(),
         }));
         if let Some((node, ks, count)) = cfg.prefill.clone() {
             let mut sh = shared.borrow_mut();
@@ -390,7 +393,8 @@ impl<'a> Cluster<'a> {
         for n in &cfgs {
             if n.id == node || members.contains(&n.id) {
                 if let Some(a) = sh.addrs.get(&n.id) {
-                    m.insert(n.id, ClusterMember::new(n.id, *a, n.dc.clone()));
+                    let dc = sh.dc_override.get(&n.id).cloned().unwrap_or_else(|| n.dc.clone());
+                    m.insert(n.id, ClusterMember::new(n.id, *a, dc));
                 }
             }
         }
